@@ -139,8 +139,13 @@ func mkBlock(caseSeed int64, salt, h uint64, keys [][]byte) block {
 			if r.Intn(5) == 0 {
 				dels = append(dels, k)
 			} else {
-				v := make([]byte, 1+r.Intn(160))
-				r.Read(v)
+				// one write in five is a key-only record (Set(key, nil): how the fsm stores committee / delegate
+				// membership): live, with an empty value — present in every scan although Get answers nil
+				var v []byte
+				if r.Intn(5) > 0 {
+					v = make([]byte, 1+r.Intn(160))
+					r.Read(v)
+				}
 				sets = append(sets, kv{k, v})
 			}
 		}
@@ -723,7 +728,18 @@ func runCase(o *drv.Out, ci int, nBlocks int, maxClones int) {
 				return
 			}
 			if !sameScan(st, rec.states[cur.chain[t-1]]) {
-				o.Fail("C09:rollback-state-differs-from-target-height", fmt.Sprintf("event %d: after Rollback(%d) the latest state is %s, block %d had left %s", ei, t, showScan(st), t, showScan(rec.states[cur.chain[t-1]])), replay)
+				sig := "C09:rollback-state-differs-from-target-height"
+				have := map[string]bool{}
+				for _, e := range st {
+					have[string(e.k)] = true
+				}
+				for _, e := range rec.states[cur.chain[t-1]] {
+					if !have[string(e.k)] && len(e.v) == 0 {
+						// a live key-only record (empty value) of the target height is gone from latest state
+						sig = "C09:rollback-drops-live-key-only-record-from-latest-state"
+					}
+				}
+				o.Fail(sig, fmt.Sprintf("event %d: after Rollback(%d) the latest state is %s, block %d had left %s", ei, t, showScan(st), t, showScan(rec.states[cur.chain[t-1]])), replay)
 				return
 			}
 			rec.snaps = append(rec.snaps, snap{version: t, chain: append([]int{}, cur.chain[:t]...), isRollback: true, idx: rec.snaps[rec.snapOf[cur.chain[t-1]]].idx,
